@@ -45,12 +45,12 @@ def subAccepts (s : Sub) (attrs : StrMap) : Bool :=
       | _ => false
 
 /-- rows the predecessor query of `deliverToSubscription` ranges over: deliveries of `s`, not
-    expired, whose message belongs to the same topic and carries the same order key -/
+    expired, whose message carries the same order key -/
 def predCands (db : Db) (s : Sub) (m : Msg) (now : Time) : List Delivery :=
   db.dels.filter fun d =>
     d.subId == s.id && decide (now < d.expiresAt) &&
       match db.msgById d.msgId with
-      | some dm => dm.topicId == m.topicId && dm.orderKey == m.orderKey
+      | some dm => dm.orderKey == m.orderKey
       | none => false
 
 def newestIn (cs : List Delivery) (d : Delivery) : Bool :=
@@ -87,22 +87,24 @@ def mkRows (db : Db) (subs : List Sub) (m : Msg) (now : Time) :
     | some s =>
       if !subAccepts s m.attrs then badObs "delivery created although the filter rejects"
       else if !predChoiceOk db s m now f.nb then badObs "predecessor choice not allowed"
-      else do
-        let rest ← mkRows db subs m now r
-        pure (mkDelivery s m now f :: rest)
+      else
+        match mkRows db subs m now r with
+        | .error e => .error e
+        | .ok rest => .ok (mkDelivery s m now f :: rest)
 
 /-- enqueue `m` on every subscription of `subs` that accepts it (`CreateBulk`) -/
 def deliverAll (db : Db) (subs : List Sub) (m : Msg) (now : Time) (fwds : List Fwd) :
-    Except Err (Db × List Id) := do
+    Except Err (Db × List Id) :=
   let expected := (subs.filter (subAccepts · m.attrs)).map (·.id)
   let got := fwds.map (·.subId)
   if !(nodupIds got && got.length == expected.length && got.all expected.contains) then
     badObs "set of receiving subscriptions differs"
   else if !(nodupIds (fwds.map (·.newId)) && (fwds.all fun f => !db.allIds.contains f.newId)) then
     badObs "delivery id not fresh"
-  else do
-    let rows ← mkRows db subs m now fwds
-    pure ({ db with dels := db.dels ++ rows }, got)
+  else
+    match mkRows db subs m now fwds with
+    | .error e => .error e
+    | .ok rows => .ok ({ db with dels := db.dels ++ rows }, got)
 
 /-! ### publish -/
 
@@ -129,37 +131,47 @@ def publishOne (db : Db) (t : Topic) (now : Time) (pm : PubMsg) : Except Err (Db
     the clock by `tick` at every message insert, so message `i` is stamped `now + i·tick` -/
 def publishLoop (t : Topic) (tick : Int) : Db → Time → List Id → List PubMsg → Except Err (Db × List Id)
   | db, _, wakes, [] => .ok (db, wakes)
-  | db, now, wakes, pm :: r => do
-    let (db', w) ← publishOne db t now pm
-    publishLoop t tick db' (now + tick) (wakes ++ w) r
+  | db, now, wakes, pm :: r =>
+    match publishOne db t now pm with
+    | .error e => .error e
+    | .ok (db', w) => publishLoop t tick db' (now + tick) (wakes ++ w) r
 
 def publish (db : Db) (now : Time) (topicName : String) (tick : Int) (msgs : List PubMsg) :
     Except Err (TxOut (List Id)) :=
   match db.liveTopicByName topicName with
   | none => .error .notFound
-  | some t => do
-    let (db', wakes) ← publishLoop t tick db now [] msgs
-    pure { db := db', wakes := dedup wakes, val := msgs.map (·.id) }
+  | some t =>
+    match publishLoop t tick db now [] msgs with
+    | .error e => .error e
+    | .ok (db', wakes) => .ok { db := db', wakes := dedup wakes, val := msgs.map (·.id) }
 
 /-! ### dead-lettering (`deadLetterDelivery`) -/
 
+/-- `UPDATE deliveries SET completed_at = now WHERE id = i` -/
+def markCompleted (i : Id) (now : Time) (l : List Delivery) : List Delivery :=
+  updateWhere (·.id == i) (fun x => { x with completedAt := some now }) l
+
+/-- first half of `deadLetterDelivery`: forward to the live subscriptions of the live dead-letter
+    topic (nothing to do when the topic is gone or has no subscriber) -/
+def dlForward (db : Db) (d : Delivery) (dlTopicId : Id) (now : Time) (fwds : List Fwd) :
+    Except Err (Db × List Id) :=
+  match db.topics.find? (fun t => t.id == dlTopicId && t.live) with
+  | none => if fwds.isEmpty then .ok (db, []) else badObs "forward to a deleted dead-letter topic"
+  | some t =>
+    if (db.liveSubsOf t.id).isEmpty then
+      if fwds.isEmpty then .ok (db, []) else badObs "forward without dead-letter subscriber"
+    else
+      match db.msgById d.msgId with
+      | none => .error .notFound
+      | some m => deliverAll db (db.liveSubsOf t.id) m now fwds
+
 def deadLetter (db : Db) (d : Delivery) (dlTopicId : Id) (now : Time) (fwds : List Fwd) :
-    Except Err (Db × List Id) := do
-  let (db1, w) ←
-    match db.topics.find? (fun t => t.id == dlTopicId && t.live) with
-    | none => if fwds.isEmpty then pure (db, []) else badObs "forward to a deleted dead-letter topic"
-    | some t =>
-      let subs := db.liveSubsOf t.id
-      if subs.isEmpty then
-        if fwds.isEmpty then pure (db, []) else badObs "forward without dead-letter subscriber"
-      else
-        match db.msgById d.msgId with
-        | none => .error .notFound
-        | some m => deliverAll db subs m now fwds
-  if (db1.delById d.id).isNone then .error .notFound
-  else
-    pure ({ db1 with dels := updateWhere (·.id == d.id) (fun x => { x with completedAt := some now }) db1.dels },
-          w ++ [d.subId])
+    Except Err (Db × List Id) :=
+  match dlForward db d dlTopicId now fwds with
+  | .error e => .error e
+  | .ok (db1, w) =>
+    if (db1.delById d.id).isNone then .error .notFound
+    else .ok ({ db1 with dels := markCompleted d.id now db1.dels }, w ++ [d.subId])
 
 /-! ### pull (`GetSubscriptionMessages`) -/
 
@@ -198,6 +210,27 @@ structure PullAcc where
   numDL     : Nat
   wakes     : List Id
 
+/-- the dead-letter topic a delivery has to be moved to when its attempts are used up
+    (`HasFullDeadLetterConfig && attempts >= max_delivery_attempts`) -/
+def Sub.dlTarget (s : Sub) (d : Delivery) : Option Id :=
+  match s.maxAttempts, s.dlTopicId with
+  | some n, some dlt => if 0 < n ∧ n ≤ (d.attempts : Int) then some dlt else none
+  | _, _ => none
+
+def fwdsFor (fwds : List (Id × List Fwd)) (i : Id) : List Fwd :=
+  match fwds.find? (·.1 == i) with
+  | some (_, l) => l
+  | none => []
+
+/-- the retry delay the implementation chose for delivery `i`, checked against the back-off
+    window for `n` attempts -/
+def obsDelay (delays : List (Id × Int)) (i : Id) (s : Sub) (n : Nat) : Except Err Int :=
+  match delays.find? (·.1 == i) with
+  | none => badObs "no delay observed for a delivery"
+  | some (_, δ) =>
+    if Backoff.delayOk (Backoff.nominal s.minBackoff s.maxBackoff n) δ then .ok δ
+    else badObs "retry delay outside the allowed window"
+
 /-- the loop of `applyResults` over the candidates -/
 def pullLoop (s : Sub) (now : Time) (maxBytes : Nat) (strict : Bool) (obs : PullObs) :
     Nat → List Delivery → PullAcc → Except Err PullAcc
@@ -209,31 +242,19 @@ def pullLoop (s : Sub) (now : Time) (maxBytes : Nat) (strict : Bool) (obs : Pull
       if (strict || decide (0 < i)) && decide (maxBytes < acc.bytes + m.plen) then
         pullLoop s now maxBytes strict obs (i+1) r acc
       else
-        match s.hasFullDeadLetterConfig, s.maxAttempts, s.dlTopicId with
-        | true, some n, some dlt =>
-          if n ≤ (d.attempts : Int) then do
-            let fw := (obs.fwds.find? (·.1 == d.id)).map (·.2) |>.getD []
-            let (db', w) ← deadLetter acc.db d dlt now fw
+        match s.dlTarget d with
+        | some dlt =>
+          match deadLetter acc.db d dlt now (fwdsFor obs.fwds d.id) with
+          | .error e => .error e
+          | .ok (db', w) =>
             pullLoop s now maxBytes strict obs (i+1) r
               { acc with db := db', numDL := acc.numDL + 1, wakes := acc.wakes ++ w }
-          else
-            match obs.delays.find? (·.1 == d.id) with
-            | none => badObs "no delay observed for a delivered id"
-            | some (_, δ) =>
-              if !Backoff.delayOk (Backoff.nominal s.minBackoff s.maxBackoff (d.attempts + 1)) δ then
-                badObs "retry delay outside the allowed window"
-              else
-                pullLoop s now maxBytes strict obs (i+1) r
-                  { acc with bytes := acc.bytes + m.plen, delivered := acc.delivered ++ [(d, δ)] }
-        | _, _, _ =>
-          match obs.delays.find? (·.1 == d.id) with
-          | none => badObs "no delay observed for a delivered id"
-          | some (_, δ) =>
-            if !Backoff.delayOk (Backoff.nominal s.minBackoff s.maxBackoff (d.attempts + 1)) δ then
-              badObs "retry delay outside the allowed window"
-            else
-              pullLoop s now maxBytes strict obs (i+1) r
-                { acc with bytes := acc.bytes + m.plen, delivered := acc.delivered ++ [(d, δ)] }
+        | none =>
+          match obsDelay obs.delays d.id s (d.attempts + 1) with
+          | .error e => .error e
+          | .ok δ =>
+            pullLoop s now maxBytes strict obs (i+1) r
+              { acc with bytes := acc.bytes + m.plen, delivered := acc.delivered ++ [(d, δ)] }
 
 def refreshExpiry (db : Db) (s : Sub) (now : Time) : Db :=
   { db with subs := updateWhere (·.id == s.id) (fun x => { x with expiresAt := now + s.ttl }) db.subs }
@@ -242,11 +263,25 @@ def refreshExpiry (db : Db) (s : Sub) (now : Time) : Db :=
 def leaseRow (now : Time) (δ : Int) (d : Delivery) : Delivery :=
   { d with lastAttemptedAt := some now, attempts := d.attempts + 1, attemptAt := now + δ }
 
+def applyLease (now : Time) (delivered : List (Delivery × Int)) (d : Delivery) : Delivery :=
+  match delivered.find? (·.1.id == d.id) with
+  | some (_, δ) => leaseRow now δ d
+  | none => d
+
 def applyLeases (now : Time) (delivered : List (Delivery × Int)) (dels : List Delivery) : List Delivery :=
-  dels.map fun d =>
-    match delivered.find? (·.1.id == d.id) with
-    | some (_, δ) => leaseRow now δ d
-    | none => d
+  dels.map (applyLease now delivered)
+
+/-- the delivery transaction of a pull whose candidate list is not empty -/
+def pullDeliver (db0 : Db) (s : Sub) (now : Time) (maxBytes : Nat) (strict : Bool) (obs : PullObs)
+    (cands : List Delivery) : Except Err (TxOut PullRes) :=
+  match pullLoop s now maxBytes strict obs 0 cands
+      { db := refreshExpiry db0 s now, bytes := 0, delivered := [], numDL := 0, wakes := [] } with
+  | .error e => .error e
+  | .ok acc =>
+    .ok { db := { acc.db with dels := applyLeases now acc.delivered acc.db.dels },
+          wakes := dedup acc.wakes,
+          val := { delivered := acc.delivered.map (fun (d, _) => (d.id, d.attempts + 1)),
+                   numDL := acc.numDL } }
 
 /-- A pull that returns at once (`MaxWait` = `wait`): the subscription check with its expiry
     refresh, the delivery transaction, and — when nothing is deliverable — the wait of `wait` ns
@@ -257,22 +292,19 @@ def pull (db : Db) (now : Time) (subName : String) (max maxBytes : Nat) (strict 
   | none => .error .notFound
   | some s =>
     let db0 := refreshExpiry db s now
-    let elig := db0.dels.filter (db0.eligible s now)
     match obs.cands.mapM (fun i => db0.delById i) with
     | none => badObs "candidate id unknown"
     | some cands =>
-      if !candsOk elig cands max then badObs "candidate list not an allowed query answer"
+      if !candsOk (db0.dels.filter (db0.eligible s now)) cands max then
+        badObs "candidate list not an allowed query answer"
       else if cands.isEmpty then
         -- nothing deliverable: wait for the timeout, then `applyResults(nil)` refreshes the expiry
-        let now' := now + wait
-        .ok ({ db := refreshExpiry db0 s now', wakes := [], val := { delivered := [], numDL := 0 } }, now')
-      else do
-        let acc ← pullLoop s now maxBytes strict obs 0 cands
-          { db := refreshExpiry db0 s now, bytes := 0, delivered := [], numDL := 0, wakes := [] }
-        let db' := { acc.db with dels := applyLeases now acc.delivered acc.db.dels }
-        pure ({ db := db', wakes := dedup acc.wakes,
-                val := { delivered := acc.delivered.map (fun (d, _) => (d.id, d.attempts + 1)),
-                         numDL := acc.numDL } }, now)
+        .ok ({ db := refreshExpiry db0 s (now + wait), wakes := [],
+               val := { delivered := [], numDL := 0 } }, now + wait)
+      else
+        match pullDeliver db0 s now maxBytes strict obs cands with
+        | .error e => .error e
+        | .ok o => .ok (o, now)
 
 /-! ### ack / nack / delay -/
 
@@ -293,6 +325,9 @@ structure NackAcc where
   numDL : Nat
   wakes : List Id
 
+def setAttemptAt (i : Id) (t : Time) (l : List Delivery) : List Delivery :=
+  updateWhere (·.id == i) (fun x => { x with attemptAt := t }) l
+
 def nackLoop (now : Time) (delays : List (Id × Int)) (fwds : List (Id × List Fwd)) :
     List Delivery → NackAcc → Except Err NackAcc
   | [], acc => .ok acc
@@ -300,34 +335,26 @@ def nackLoop (now : Time) (delays : List (Id × Int)) (fwds : List (Id × List F
     match acc.db.subById d.subId with
     | none => .error .notFound
     | some s =>
-      let plain : Except Err NackAcc :=
-        match delays.find? (·.1 == d.id) with
-        | none => badObs "no delay observed for a nacked id"
-        | some (_, δ) =>
-          if !Backoff.delayOk (Backoff.nominal s.minBackoff s.maxBackoff d.attempts) δ then
-            badObs "nack delay outside the allowed window"
-          else
-            let dels' := updateWhere (·.id == d.id) (fun x => { x with attemptAt := now + δ }) acc.db.dels
-            .ok { acc with db := { acc.db with dels := dels' } }
-      match s.hasFullDeadLetterConfig, s.maxAttempts, s.dlTopicId with
-      | true, some n, some dlt =>
-        if n ≤ (d.attempts : Int) then do
-          let fw := (fwds.find? (·.1 == d.id)).map (·.2) |>.getD []
-          let (db', w) ← deadLetter acc.db d dlt now fw
+      match s.dlTarget d with
+      | some dlt =>
+        match deadLetter acc.db d dlt now (fwdsFor fwds d.id) with
+        | .error e => .error e
+        | .ok (db', w) =>
           nackLoop now delays fwds r { db := db', numDL := acc.numDL + 1, wakes := acc.wakes ++ w }
-        else do
-          let acc' ← plain
-          nackLoop now delays fwds r acc'
-      | _, _, _ => do
-        let acc' ← plain
-        nackLoop now delays fwds r acc'
+      | none =>
+        match obsDelay delays d.id s d.attempts with
+        | .error e => .error e
+        | .ok δ =>
+          nackLoop now delays fwds r
+            { acc with db := { acc.db with dels := setAttemptAt d.id (now + δ) acc.db.dels } }
 
 /-- `NackDeliveries`: result = (numNacked, numDeadLettered) -/
 def nack (db : Db) (now : Time) (ids : List Id) (delays : List (Id × Int))
-    (fwds : List (Id × List Fwd)) : Except Err (TxOut (Nat × Nat)) := do
+    (fwds : List (Id × List Fwd)) : Except Err (TxOut (Nat × Nat)) :=
   let rows := sortById (db.dels.filter fun d => ids.contains d.id && d.isOpen now)
-  let acc ← nackLoop now delays fwds rows { db := db, numDL := 0, wakes := [] }
-  pure { db := acc.db, wakes := dedup acc.wakes, val := (rows.length, acc.numDL) }
+  match nackLoop now delays fwds rows { db := db, numDL := 0, wakes := [] } with
+  | .error e => .error e
+  | .ok acc => .ok { db := acc.db, wakes := dedup acc.wakes, val := (rows.length, acc.numDL) }
 
 /-- `DelayDeliveries` (ModifyAckDeadline): positive delays only postpone, a non-positive delay
     makes the rows due at `now + Δ` and wakes their subscriptions -/
@@ -368,10 +395,10 @@ def sweepLoop (now : Time) (fwds : List (Id × List Fwd)) :
   | d :: r, db, wakes =>
     match (db.subById d.subId).bind (·.dlTopicId) with
     | none => .error .notFound
-    | some dlt => do
-      let fw := (fwds.find? (·.1 == d.id)).map (·.2) |>.getD []
-      let (db', w) ← deadLetter db d dlt now fw
-      sweepLoop now fwds r db' (wakes ++ w)
+    | some dlt =>
+      match deadLetter db d dlt now (fwdsFor fwds d.id) with
+      | .error e => .error e
+      | .ok (db', w) => sweepLoop now fwds r db' (wakes ++ w)
 
 def dlSweep (db : Db) (now : Time) (max : Nat) (victims : List Id) (fwds : List (Id × List Fwd)) :
     Except Err (TxOut Nat) :=
@@ -379,9 +406,10 @@ def dlSweep (db : Db) (now : Time) (max : Nat) (victims : List Id) (fwds : List 
   else
     match victims.mapM db.delById with
     | none => badObs "sweep victim unknown"
-    | some rows => do
-      let (db', wakes) ← sweepLoop now fwds rows db []
-      pure { db := db', wakes := dedup wakes, val := rows.length }
+    | some rows =>
+      match sweepLoop now fwds rows db [] with
+      | .error e => .error e
+      | .ok (db', wakes) => .ok { db := db', wakes := dedup wakes, val := rows.length }
 
 /-! ### seek, snapshots -/
 
@@ -566,6 +594,15 @@ def deleteSub (db : Db) (now : Time) (name : String) : Except Err (TxOut Nat) :=
   else
     .ok { db := { db with subs := updateWhere p (fun s => { s with deletedAt := some now }) db.subs },
           wakes := ids, val := ids.length }
+
+/-- `controllers/delay-injector.go` `PutDelay` / `DeleteDelay`: set the delivery delay of a live
+    subscription -/
+def setDelay (db : Db) (name : String) (d : Int) : Except Err (TxOut Unit) :=
+  let p : Sub → Bool := fun s => s.name == name && s.live
+  if !db.subs.any p then .error .notFound
+  else
+    let subs' := updateWhere p (fun s => { s with deliveryDelay := d }) db.subs
+    .ok { db := { db with subs := subs' }, wakes := [], val := () }
 
 /-! ### background jobs -/
 
